@@ -393,7 +393,10 @@ class ObjOracle(object):
     @classmethod
     def prop(cls, case):
         from cryptoparser.tls.openvpn import OpenVpnPacketVariant
-        obj = cls.build(case)
+        try:
+            obj = cls.build(case)
+        except gen_opp.ConformantRefused as exc:
+            return [('refuses-conformant:' + exc.cls_name, 'the constructor refuses values that have an encoding: ' + str(exc))]
         return check_object(obj, OpenVpnPacketVariant if case['gen'] == 'OpenVpnPacketVariant' else None)
 
 
@@ -698,11 +701,23 @@ class ProbeOracle(object):
                         else (back.server_version, back.auth_plugin_name))))
         elif name == 'mysql-v10-part2':
             bad.extend(mysql_part2_probe())
+        elif name == 'cotp-boundary':
+            # X.224 CR/CC with the longest user data the one-octet length indicator allows (LI = 6 + 248 = 254) and its
+            # neighbours: constructed, composed and parsed like every generated object
+            for cls in (rdp.COTPConnectionRequest, rdp.COTPConnectionConfirm):
+                for n in (0, 1, 247, gen_opp.COTP_MAX_USER_DATA):
+                    kwargs = dict(src_ref=0x1234, user_data=bytes(range(1, 250))[:n], dst_ref=0xabcd, class_option=0)
+                    obj = _t(lambda: cls(**kwargs))  # pylint: disable=cell-var-from-loop
+                    if isinstance(obj, Exception):
+                        bad.append(('refuses-conformant:' + cls.__name__, '{} with {} octets of user data (length indicator {}) is '
+                                    'refused by the constructor: {}'.format(cls.__name__, n, 6 + n, core.err_line(obj))))
+                    else:
+                        bad.extend(check_object(obj))
         return bad[:1]
 
 
 ORACLES = {'cls': clsrun.ClsOracle, 'obj': ObjOracle, 'consts': ConstOracle, 'ldap': LdapOracle, 'ldapsize': LdapSizeOracle, 'probe': ProbeOracle}
-PROBES = ['rdp-zero-flag', 'strnul-embedded-nul', 'mysql-v10-part2']
+PROBES = ['rdp-zero-flag', 'strnul-embedded-nul', 'mysql-v10-part2', 'cotp-boundary']
 
 
 class Dispatch(object):
@@ -727,12 +742,12 @@ def gen_cases(rng, tier):
     for name, gen in gen_opp.ALL_GENERATORS:
         for _ in range(per_class):
             seed = rng.getrandbits(48)
-            obj = gen(random.Random(seed))
             cases.append({'kind': 'obj', 'gen': name, 'seed': seed})
             try:
+                obj = gen(random.Random(seed))
                 b = bytes(obj.compose())
             except Exception:  # pylint: disable=broad-except
-                continue
+                continue        # the object oracle reports it (refuses-conformant / compose)
             datas = [b, b + bytes(rng.getrandbits(8) for _ in range(rng.randrange(1, 4)))]
             datas += clsrun.mutations(rng, b, n_mut)
             if len(b) <= 80:
